@@ -62,11 +62,23 @@ def build_jobs(chk: Check, thorough: bool, rng) -> List[Dict[str, Any]]:
         singles = chk.run_model(fault_model(nvals, 1), label=f"fault sequences: all single faults on the {label} image ({len(sites)} sites)").cases
         multi = chk.run_model(fault_model(nvals, 3), simulate=f"num={60 if thorough else 12}", depth=5, seed=chk.seed, workers=4,
                               label=f"fault sequences: simulated pairs/triples ({label})").cases
-        multi = [m for m in multi if len(m["faults"]) > 1]
+        # the simulation emits a case for every generated successor (tens of thousands): distinct fault sets, seeded sample
+        seen, uniq_multi = set(), []
+        for m in multi:
+            k = json.dumps(m["faults"])
+            if len(m["faults"]) > 1 and k not in seen:
+                seen.add(k)
+                uniq_multi.append(m)
+        uniq_multi.sort(key=lambda m: json.dumps(m["faults"]))
+        random.Random(chk.seed + 5).shuffle(uniq_multi)
         fs = [c["faults"] for c in singles]
         if not thorough:
-            fs = fs[:: max(1, len(fs) // (520 if label == "akai" else 160))]
-            multi = multi[:120 if label == "akai" else 40]
+            srng = random.Random(chk.seed + 6)
+            fs = sorted(srng.sample(fs, min(len(fs), 520 if label == "akai" else 160)))
+            multi = uniq_multi[:120 if label == "akai" else 40]
+        else:
+            multi = uniq_multi[:3000 if label == "akai" else 600]
+        chk.extra.setdefault("fault_sets", {})[label] = {"single": len(fs), "multi_distinct_generated": len(uniq_multi), "multi_run": len(multi)}
         for f in fs + [m["faults"] for m in multi]:
             jobs.append({"label": label, "faults": f, "names": [(sites[s - 1].name, sites[s - 1].values[v - 1]) for s, v in f],
                          "data": (lambda image=image, sites=sites, f=f: faults.apply(image, sites, f)), "size": len(image), "paths": paths, "suffix": ".img", "extra": None})
